@@ -355,6 +355,27 @@ class Canon:
             ft = self._t(f)
         if dotted in UFUNC_BINOPS and len(args) == 2 and not kws:
             return self._bin(UFUNC_BINOPS[dotted], args[0], args[1])
+        # np.asarray(x) / np.asanyarray(x) without a dtype hold the values of x
+        if dotted in ('numpy.asarray', 'numpy.asanyarray') and len(args) == 1 and not kws:
+            return args[0]
+        # np.arange(a, a + n[, 1])  is  np.arange(n) + a   (one canonical form for "n consecutive integers from a")
+        if dotted == 'numpy.arange' and not kws and (len(args) == 2 or (len(args) == 3 and args[2] == ('num', 1))) and args[0] != ('num', 0):
+            a, b = args[0], args[1]
+            a_parts = list(a[1]) if a[0] == '+' else [a]
+            b_parts = list(b[1]) if b[0] == '+' else [b]
+            rest = list(b_parts)
+            ok_ = True
+            for q in a_parts:
+                if q in rest:
+                    rest.remove(q)
+                else:
+                    ok_ = False
+                    break
+            if ok_ and rest:
+                n_ = rest[0] if len(rest) == 1 else self._add(rest)
+                return self._add([('call', ('lib', 'numpy.arange'), (n_,), ()), a])
+        if dotted == 'numpy.arange' and not kws and ((len(args) == 2 and args[0] == ('num', 0)) or (len(args) == 3 and args[0] == ('num', 0) and args[2] == ('num', 1))):
+            return ('call', ('lib', 'numpy.arange'), (args[1],), ())
         if dotted in UFUNC_CMPS and len(args) == 2 and not kws:
             return self._cmp(UFUNC_CMPS[dotted], args[0], args[1])
         if dotted in ('numpy.abs', 'numpy.absolute', 'numpy.fabs') or (ft == ('name', 'abs')):
